@@ -51,7 +51,8 @@ class SocketConnectionDispatcher(YowConnectionDispatcher):
 
     def sendData(self, data):
         try:
-            self.socket.send(data)
+            # send() may take only part of the data (its return value was ignored: the rest of the frame was lost)
+            self.socket.sendall(data)
         except socket.error as e:
             logger.error(e)
             self.disconnect()
